@@ -19,9 +19,10 @@ const (
 // pointer type is wanted); cases containing it are excluded while knownNilPtrPanic is set.
 const whyNilPtr = "nil pointer re-typing"
 
-// knownNilPtrPanic: true while /repo panics on that shape (reported, signature
-// "C11|panic|calls|reflect: call of reflect.Value.Type on zero Value").
-const knownNilPtrPanic = true
+// knownNilPtrPanic: set to true to exclude that shape by construction. /repo panicked on it
+// ("C11|panic|calls|reflect: call of reflect.Value.Type on zero Value") until commit
+// d32215c; now the shape is executed and only "no panic" is asserted for it.
+const knownNilPtrPanic = false
 
 var stName = []string{" ok", " none", " unasserted"}
 
@@ -82,7 +83,11 @@ func goConvert(v reflect.Value, T reflect.Type) convRes {
 	}
 	if vt.Kind() == reflect.Ptr || T.Kind() == reflect.Ptr {
 		if vt.Kind() == reflect.Ptr && T.Kind() == reflect.Ptr && v.IsNil() {
-			return unas(whyNilPtr)
+			if knownNilPtrPanic {
+				return unas(whyNilPtr)
+			}
+			// a nil pointer is nil: T's zero value (the typed nil pointer)
+			return convRes{st: cOK, v: reflect.Zero(T), cell: cell}
 		}
 		return unas("pointer re-typing")
 	}
